@@ -1,7 +1,7 @@
 """Which units decide which property, and what is claimed (feeds MANIFEST.json)."""
 from catalog import P, NOT_APPLICABLE, PROPERTY_UNITS
 
-P("C25", [("K1", r"^k1_(c_db|c_bv|l_shift)")],
+P("C25", [("K1", r"^k1_(c_db|c_bv|l_shift)"), ("K2", None)],
   "proof",
   "Kani function contracts on the real DebruijnIndex/BoundVar shift functions, proved over the full u32/usize domains "
   "(loop-free, so complete), and the shift laws of C25 proved as lemmas over those contracts (stub_verified). "
@@ -51,6 +51,29 @@ P("C05", [("V10", None), ("V3", None)],
   "(Unique, trivially true, over the goal's own binders) and inductive ones at NoSolution, and that iteration stops only when the answer repeats or is ambiguous. Unbounded.",
   "Not reached: push_auto_trait_impls / constituent types (iterator+closure code), delayed subgoals in the SLG engine, cache rollback. Assumed: finite goals, trait flags abstract.",
   "contract-based deductive verification: Verus on mechanically extracted function text")
+
+P("C03", [("V5", None)],
+  "proof",
+  "Partial (function-level links): Verus proves on the verbatim text of the SLG answer stream that every yielded answer is the table's answer at the stream's current index with "
+  "binders, substitution, constraints and ambiguity flag unchanged and no delayed subgoals (answers awaiting refinement are never yielded), that next_answer strictly advances the "
+  "index (an index is handed out at most once) and that QuantumExceeded is only reported when the caller's callback returned false. Unbounded, partial correctness.",
+  "Not reached: Table::push_answer's duplicate detection (hash-map Entry API), soundness/completeness of the state machine behind ensure_root_answer (havoc here), "
+  "the solve_multiple callback loop (&mut dyn FnMut is outside Verus), termination.",
+  "contract-based deductive verification: Verus on mechanically extracted function text, callee havoc contracts, in-place loop invariant")
+
+P("C07", [("V2", None)],
+  "proof",
+  "Partial (one anchored mechanism): Verus proves on the verbatim text of with_priorities that a high-priority candidate (impl-provided normalization) overrides a low-priority one "
+  "(placeholder fallback) exactly when both are for the same inputs, and otherwise the candidates are combined; the result is independent of argument order. Unbounded.",
+  "Not reached: clause generation for associated types (program_clauses.rs), relate_alias_ty, the solver search itself. Assumed: calculate_inputs abstract, Solution::combine's contract (V1).",
+  "contract-based deductive verification: Verus on mechanically extracted function text")
+
+P("C13", [("V1", None), ("V2", None), ("K1", r"^k3_l_priority_meet")],
+  "proof",
+  "Partial (function-level links): commutativity of Solution::combine (Verus lemma over its verified functional contract), argument-order independence of with_priorities (Verus), "
+  "and commutativity/associativity/idempotence of the ClausePriority meet (Kani, full domain). Unbounded / complete.",
+  "Not reached: iteration order of impls, the environment hash set, arrival order of answers in merge_into_guidance. Assumed: two trivially-true solutions of one query are equal.",
+  "contract-based deductive verification: Verus lemmas over verified contracts + Kani full-domain harness")
 
 # ---- not (yet) claimed
 NOT_APPLICABLE['C02'] = "completeness of proof search within size limits is a whole-search statement; the mechanisms named in the anchors (on_no_strands_left, clear_strands_after_cycle, solve_new_subgoal, Fulfill::fulfill) log, use FxHashMap tables and custom Index impls (DESIGN P5/P6/P10) and none has a per-function contract implying 'never Ambiguous'"
